@@ -23,6 +23,11 @@ def check_line_number(chk, T):
     res = e.explore(lambda e: e.call_mir(fn, [Int(off, 'usize'), text]), base_constraints=pre)
     nviol = 0
     by_class = {}
+    if any(r.outcome == 'unsupported' for r in res):
+        # DESIGN 4.4: code the engine cannot encode is still tested on the real function (never an alarm by itself)
+        chk.undecide('get_line_number T=%d: %s' % (T, [r.value for r in res if r.outcome == 'unsupported'][0]))
+        native_line_fallback(chk, T)
+        return
     for r in res:
         if r.outcome == 'unsupported':
             chk.undecide('get_line_number T=%d: %s' % (T, r.value)); continue
@@ -94,6 +99,34 @@ def check_line_number(chk, T):
     chk.sample({'get_line_number': '%d characters, class (newline/other) per path, widths 1..4 and offset symbolic' % T,
                 'paths': len(res), 'example': exp[0] if exp else None})
     chk.absorb(e)
+
+
+ALPHABET = ['\n', 'a', ' ', '\r', 'é', '€', '\U0001d11e']
+
+
+def native_line_fallback(chk, T):
+    """all texts of T characters over a 7-letter alphabet (newline, ASCII, CR, 2/3/4-byte characters), capped by seeded
+    sampling at 2000, every token offset: the real function against 1 + #line feeds before the offset"""
+    texts = [''.join(t) for t in itertools.product(ALPHABET, repeat=T)]
+    if len(texts) > 2000:
+        texts = chk.rng.sample(texts, 2000)
+    jobs, exp = [], []
+    for txt in texts:
+        off = 0
+        for ch in txt:
+            if ch != '\n':
+                jobs.append(['line', str(off), hexs(txt)])
+                exp.append((off, txt, 1 + txt.encode()[:off].count(b'\n')))
+            off += len(ch.encode())
+    for (o, txt, want), nat in zip(exp, chk.native.run(jobs)):
+        chk.states += 1
+        if nat[0] == 'OK' and int(nat[1]) == want:
+            continue
+        last_line = b'\n' not in txt.encode()[o:]
+        key = 'line:panic' if nat[0] != 'OK' else ('line:last-line-without-newline' if last_line else 'line:wrong-line')
+        chk.violation(key, 'get_line_number(%d, %r) = %s, the construct begins on line %d' % (o, txt, nat[1:], want),
+                      {'job': 'line', 'offset': o, 'text': txt, 'expected': want, 'observed': nat})
+    chk.sample({'get_line_number (native fallback)': '%d texts of %d characters' % (len(texts), T)})
 
 
 def detector_functions(program):
